@@ -761,6 +761,44 @@ pub fn run_c19(tier: Tier) -> i32 {
         }
     }
     drop(check);
+    // The same paths from several threads at once (free-running: the interleavings are *not*
+    // controlled, this is a smoke test for shared scratch state, not an exhaustive exploration).
+    // Every conversion is still compared with what was pushed, so an alarm here is a real one.
+    let conc_bad = AtomicUsize::new(0);
+    let conc_n = AtomicUsize::new(0);
+    std::thread::scope(|sc| {
+        for t in 0..threads() {
+            let (alphabet, conc_bad, conc_n, rec) = (&alphabet, &conc_bad, &conc_n, &rec);
+            sc.spawn(move || {
+                for _round in 0..3 {
+                    c19_rec(deserr::ValuePointerRef::Origin, &mut vec![], 5, alphabet, &mut |p, steps| {
+                        conc_n.fetch_add(1, Ordering::Relaxed);
+                        let got = format!("{:?}", p.to_owned().path);
+                        let want = format!(
+                            "[{}]",
+                            steps
+                                .iter()
+                                .map(|s| match s {
+                                    Step::Key(k) => format!("Key({k:?})"),
+                                    Step::Index(i) => format!("Index({i})"),
+                                })
+                                .collect::<Vec<_>>()
+                                .join(", ")
+                        );
+                        if got != want && conc_bad.fetch_add(1, Ordering::Relaxed) < 3 {
+                            rec.violation(Violation {
+                                property: "C19".into(),
+                                subject: "concurrent conversions".into(),
+                                message: format!("while {} threads convert pointers at the same time (thread {t}), to_owned() lists {got}, pushed {want}", threads()),
+                                replay: json!({"kind": "c19", "path": loc_str(steps), "note": "seen only under concurrent use; the sequential replay may not reproduce it"}),
+                            });
+                        }
+                    });
+                }
+            });
+        }
+    });
+    rec.set_extra("concurrent_smoke_(free_running,_not_exhaustive)", json!({"threads": threads(), "conversions": conc_n.load(Ordering::Relaxed)}));
     let n = n.get();
     rec.add_counts(n, n, n);
     rec.add_signatures(&outcomes, &outcomes);
@@ -769,7 +807,7 @@ pub fn run_c19(tier: Tier) -> i32 {
     rec.sample(json!({"path": ".a[0].b", "to_owned": format!("{:?}", deserr::ValuePointerRef::Origin.push_key("a").push_index(0).push_key("b").to_owned().path)}));
     rec.finish(
         "model_checking",
-        "complete enumeration of every path of ≤ 6 (quick) / ≤ 11 (thorough) steps over {key a, key b, index 0, index 1}, built as real ValuePointerRef chains by recursion, every path of ≤ 4 steps over {empty key, key `a.b[0]`, key `é`, index usize::MAX} and over {key `tags[]`, key `[]`, key `.`, index 1}, every path of ≤ 3 steps over 47 key texts (number-, boolean- and null-like, path syntax, blanks, case variants, non-ASCII, control characters) and one index, plus the first 2000 paths of each of the next six lengths over a second alphabet and four paths of each length 100, 127–130, 255–257, 1000, 5000. Oracle: to_owned().path lists exactly the pushed steps in order; is_origin ⇔ no step; first_field / last_field = first / last key step or None.",
+        "complete enumeration of every path of ≤ 6 (quick) / ≤ 11 (thorough) steps over {key a, key b, index 0, index 1}, built as real ValuePointerRef chains by recursion, every path of ≤ 4 steps over {empty key, key `a.b[0]`, key `é`, index usize::MAX} and over {key `tags[]`, key `[]`, key `.`, index 1}, every path of ≤ 3 steps over 47 key texts (number-, boolean- and null-like, path syntax, blanks, case variants, non-ASCII, control characters) and one index, plus the first 2000 paths of each of the next six lengths over a second alphabet and four paths of each length 100, 127–130, 255–257, 1000, 5000. Oracle: to_owned().path lists exactly the pushed steps in order; is_origin ⇔ no step; first_field / last_field = first / last key step or None. In addition (not exhaustive, labelled as such in the evidence): all paths of ≤ 5 steps are converted from 16 threads at once, free-running, each conversion compared with what was pushed.",
         &["ValuePointerComponent is not exported by deserr, so the owned path is compared through its Debug rendering"],
     )
 }
@@ -986,6 +1024,39 @@ pub fn run_c13(tier: Tier) -> i32 {
             extra.push(format!("[{{\"{k1}\":1}},{{\"{k1}\":1,\"{k2}\":{{\"{k2}\":{{\"{k1}\":null}}}}}}]"));
         }
     }
+    // number spellings: the same magnitude written as an integer, with a fraction, with an exponent —
+    // around every boundary a bridge could confuse (2^31, 2^32, 2^53, 2^63, 2^64, 2^127, 2^128) and
+    // inside the windows between them; each alone, in an array, as a member, and next to each other
+    let mut nums: Vec<String> = vec![];
+    for k in [7u32, 8, 31, 32, 52, 53, 62, 63, 64] {
+        let p: u128 = 1u128 << k;
+        for v in [p - 1, p, p + 1] {
+            for sign in ["", "-"] {
+                nums.push(format!("{sign}{v}"));
+                nums.push(format!("{sign}{v}.0"));
+                nums.push(format!("{sign}{v}e0"));
+            }
+        }
+    }
+    for t in [
+        "1e19", "1.2e19", "9.3e18", "1e18", "1e20", "-1e19", "-9.3e18", "12345678901234567890.0", "18446744073709551615.0",
+        "1.8446744073709552e19", "9.223372036854775807e18", "9223372036854775808.0", "-9223372036854775808.0", "1.5e19", "1e19.0e0".split('.').next().unwrap(),
+        "0.0", "0e0", "-0e0", "1E2", "1e+2", "100e-2", "4.0e0", "0.5", "-0.5", "1e-7", "1e21", "1e22", "123456789012345678901234567890",
+        "340282366920938463463374607431768211455", "340282366920938463463374607431768211456", "3.4028234663852886e38", "1e39", "1e308", "2.2250738585072014e-308",
+    ] {
+        nums.push(t.to_string());
+    }
+    nums.sort();
+    nums.dedup();
+    let n_nums = nums.len();
+    for (i, a) in nums.iter().enumerate() {
+        extra.push(a.clone());
+        extra.push(format!("[{a}]"));
+        extra.push(format!("{{\"n\":{a}}}"));
+        let b = &nums[(i * 7 + 3) % n_nums];
+        extra.push(format!("[{a},{b},{{\"m\":[{b},{a}]}}]"));
+    }
+    rec.set_extra("number_spellings", json!(n_nums));
     rec.set_extra("documents_with_awkward_member_names", json!(extra.len()));
     let texts: Vec<&String> = by.iter().flatten().chain(extra.iter()).collect();
     let next = AtomicUsize::new(0);
@@ -1149,7 +1220,7 @@ pub fn run_c13(tier: Tier) -> i32 {
     }
     rec.finish(
         "model_checking",
-        "complete enumeration of every JSON document with ≤ 3 (quick) / ≤ 5 (thorough) nodes over keys {\"\", a, b} and 26 leaf literals given as *text* (0, -0, -0.0, u64::MAX, u64::MAX+1, i64::MIN, i64::MIN-1, i64::MAX, i64::MAX+1, 2^53-1, 2^53, 2^53+1, 1.0, 1e2, subnormals, f64::MAX, strings, booleans, null), parsed by serde_json; plus every ordered pair of 37 member names (JSON-pointer / path / template syntax, quotes, NUL, non-ASCII, and plain ones) as siblings holding containers, as parent / child, and as the *same name at two levels* next to and below a sibling; plus long arrays / wide objects / long strings and deep nesting. Oracle per document (self-relative): deserialize::<Value,_,_>(v) == Ok(v) with no report, also through the second value source; Value::from(v.into_value()) == v (structurally and as text, so -0.0 vs 0 is seen); kind() == into_value().kind() for v and every sub-value; numbers classified by serde_json's own text form of the number (no . / e ⇒ integer, sign ⇒ negative) and carried exactly. distinct = distinct document texts.",
+        "complete enumeration of every JSON document with ≤ 3 (quick) / ≤ 5 (thorough) nodes over keys {\"\", a, b} and 26 leaf literals given as *text* (0, -0, -0.0, u64::MAX, u64::MAX+1, i64::MIN, i64::MIN-1, i64::MAX, i64::MAX+1, 2^53-1, 2^53, 2^53+1, 1.0, 1e2, subnormals, f64::MAX, strings, booleans, null), parsed by serde_json; plus every ordered pair of 37 member names (JSON-pointer / path / template syntax, quotes, NUL, non-ASCII, and plain ones) as siblings holding containers, as parent / child, and as the *same name at two levels* next to and below a sibling; plus ~200 number spellings (integer / fraction / exponent forms around 2^7 … 2^64, inside the windows between them, 128-bit and float extremes) alone and nested; plus long arrays / wide objects / long strings and deep nesting. Oracle per document (self-relative): deserialize::<Value,_,_>(v) == Ok(v) with no report, also through the second value source; Value::from(v.into_value()) == v (structurally and as text, so -0.0 vs 0 is seen); kind() == into_value().kind() for v and every sub-value; numbers classified by serde_json's own text form of the number (no . / e ⇒ integer, sign ⇒ negative) and carried exactly. distinct = distinct document texts.",
         &["classification reference = the text serde_json itself prints for the number it holds"],
     )
 }
@@ -1306,6 +1377,11 @@ pub fn run_c05(tier: Tier) -> i32 {
     for s in crate::pure::words(&['a', 'é', '😀'], 3) {
         values.push(Doc::Str(s));
     }
+    // characters that render as part of their neighbour (combining mark, variation selectors, zero
+    // width joiner, a tag character): each is a `char` of its own
+    for s in crate::pure::words(&['a', '❤', '\u{301}', '\u{fe0f}', '\u{fe00}', '\u{200d}', '\u{e0061}'], 3) {
+        values.push(Doc::Str(s));
+    }
     // strings that *spell* a value of another kind (a string is a string whatever it spells)
     for t in ["true", "false", "null", "0", "1", "-1", "255", "1.5", "1e3", "NaN", "inf", "Infinity", "[]", "{}", "\"a\"", " 1", "1 ", "TRUE", "True", "yes", "on", "()"] {
         values.push(Doc::s(t));
@@ -1438,7 +1514,7 @@ pub fn run_c05(tier: Tier) -> i32 {
     rec.sample(json!({"target": "f32", "payload": "16777217", "expected": format!("{:?}", scalar_expect(Scalar::F32, &Doc::Int(16777217)))}));
     rec.finish(
         "model_checking",
-        "complete enumeration: 30 scalar targets × 2 value sources × every payload of the stated set (all integers of the range, all ±2^k and ±2^k±1, every target's MIN/MAX ±1, every integer next to an f32 / f64 rounding midpoint 2^k + 2^(k-24)·{1,3} ± 1 (double-rounding detectors), zero and small non-negative numbers classified as negative and NaN / ±inf from a non-canonical source, all strings of ≤ 2 characters over {backslash, t, n, 0, r, double quote, space, tab}, 26 floats incl. ±0, subnormals, f32::MAX neighbours, 2^24±1, 2^53±1, huge; all strings of 0..3 scalar values over {a, é, 😀}; 22 strings that spell a value of another kind (`true`, `null`, `1`, `1.5`, `[]`, …); 126 long strings of 15..257+ bytes whose multi-byte characters straddle every byte offset; every non-scalar kind). Each executed on the real deserialize with a recording error type. Oracle: independent i128/decimal-string specification — success ⇔ kind admissible ∧ value in domain; result equals the input (floats: the correctly rounded conversion computed from the exact decimal expansion); wrong kind ⇒ exactly one IncorrectValueKind whose accepted set is the admissible set and whose actual is the payload; domain violation ⇒ exactly one Unexpected whose numeric tokens contain the received number and the violated bound (or mention a zero / the string and its length / empty).",
+        "complete enumeration: 30 scalar targets × 2 value sources × every payload of the stated set (all integers of the range, all ±2^k and ±2^k±1, every target's MIN/MAX ±1, every integer next to an f32 / f64 rounding midpoint 2^k + 2^(k-24)·{1,3} ± 1 (double-rounding detectors), zero and small non-negative numbers classified as negative and NaN / ±inf from a non-canonical source, all strings of ≤ 2 characters over {backslash, t, n, 0, r, double quote, space, tab}, 26 floats incl. ±0, subnormals, f32::MAX neighbours, 2^24±1, 2^53±1, huge; all strings of 0..3 scalar values over {a, é, 😀} and over {a, ❤, U+0301, U+FE0F, U+FE00, U+200D, U+E0061}; 22 strings that spell a value of another kind (`true`, `null`, `1`, `1.5`, `[]`, …); 126 long strings of 15..257+ bytes whose multi-byte characters straddle every byte offset; every non-scalar kind). Each executed on the real deserialize with a recording error type. Oracle: independent i128/decimal-string specification — success ⇔ kind admissible ∧ value in domain; result equals the input (floats: the correctly rounded conversion computed from the exact decimal expansion); wrong kind ⇒ exactly one IncorrectValueKind whose accepted set is the admissible set and whose actual is the payload; domain violation ⇒ exactly one Unexpected whose numeric tokens contain the received number and the violated bound (or mention a zero / the string and its length / empty).",
         &["float reference = Rust's correctly rounded decimal parser applied to the exact decimal expansion of the input"],
     )
 }
